@@ -16,7 +16,7 @@ BUDGET = dict(quick=16000, thorough=800000)
 ANCHORS = ['numdifftools.multicomplex:Bicomplex.%s' % n for n in (
     'sin cos tan cot sec csc sinh cosh tanh coth sech csch exp exp2 expm1 log log2 log10 log1p sqrt arcsin arccos '
     'arctan arccosh arcsinh arctanh __add__ __sub__ __rsub__ __mul__ __div__ __rdiv__ __pow__ __rpow__ __neg__ '
-    'mod_c _arg_c arg_c arg_c1p').split()]
+    'mod_c _arg_c arg_c').split()]
 MIN_COUNTERS = dict(quick={'asserted:unary': 6000, 'asserted:binary': 1500, 'asserted:pow': 1500,
                            'asserted:compose': 1000, 'asserted:reduction_z2_is_zero': 500,
                            'asserted:multicomplex_pattern': 500, 'via_ufunc': 2000, 'array_arguments': 1000},
@@ -29,8 +29,12 @@ RULE = ('all 26 elementary methods (called directly and through numpy ufunc disp
 ASSUMPTIONS = ['componentwise |observed - model| <= C*eps*(|Z1|+|Z2| + cond), cond = |f\'(a) a| + |f\'(b) b| measured by '
                'perturbing the idempotent arguments; C = 256 (calibrated, see evidence worst ratios)',
                'mpmath 40-digit evaluation of the complex functions is the trusted reference',
-               'log1p is judged as log(1 + z) (absolute eps from forming 1 + z accepted): numpy\'s own complex log1p has the '
-               'same behaviour (relative error 8e-8 at 1e-9), so small-argument relative accuracy is not part of C12',
+               'log1p and the inverse trigonometric/hyperbolic functions are log(1 + ...) formulas: an absolute eps from '
+               'forming 1 + ... is accepted (numpy\'s own complex log1p has relative error 8e-8 at 1e-9), so '
+               'small-argument relative accuracy is not part of C12',
+               'neighbourhood of the real domain: idempotent components stay within half the distance to the nearest '
+               'singular point of every dividing / log / root / pole node (and within +-1 of the argument of '
+               'exponentially growing nodes); arguments outside are counted as skipped, not judged',
                'base points: function-specific real domains away from branch points and poles (margins in DOMAIN table)']
 C = 256.0
 EPS = 2.0 ** -52
@@ -42,6 +46,7 @@ NP_UFUNC = set('sin cos tan sinh cosh tanh exp exp2 expm1 log log2 log10 log1p s
 COMPOSE_UNARY = ['exp', 'log', 'sqrt', 'sin', 'cos', 'tan', 'sinh', 'cosh', 'tanh', 'arctan', 'arcsin', 'arcsinh',
                  'arctanh', 'expm1', 'log1p']
 BINOPS = ['add', 'sub', 'mul', 'div', 'radd', 'rsub', 'rmul', 'rdiv']
+LOG_FORMULA = ('log1p', 'arcsin', 'arccos', 'arctan', 'arcsinh', 'arctanh', 'arccosh')
 _mp = None
 
 
@@ -77,6 +82,8 @@ def draw_x(rng, fname):
             x = float(rng.uniform(-6, 6))
             if abs(math.sin(x)) > 0.15:
                 return x
+    if fname in ('tanh', 'coth', 'sech', 'csch') and u < 0.04:
+        return float(rng.choice([-1, 1]) * rng.uniform(360, 700))     # real function finite (+-1 or 0) there
     if fname in ('coth', 'csch'):
         return float(rng.choice([-1, 1]) * rng.uniform(0.2, 5))
     if fname in ('exp', 'exp2', 'sinh', 'cosh', 'tanh', 'sech'):
@@ -173,6 +180,23 @@ def wrap(res):
     return Bicomplex.__array_wrap__(np.asarray(res))
 
 
+QUOTIENT_FUNCS = ('tanh', 'coth', 'sech', 'csch')
+
+
+def quotient_overflow(tree, x):
+    """True if the program applies tanh/coth/sech/csch to an argument beyond +-350, where the library forms
+    sinh/cosh quotients through mod_c (squares overflow above 1e154)."""
+    for node in X.nodes(tree):
+        if node[0] == 'fn' and node[1] in QUOTIENT_FUNCS:
+            try:
+                v = X._eval_c(node[2], complex(x))
+                if abs(v.real) > 350:
+                    return True
+            except Exception:
+                pass
+    return False
+
+
 def compare(ctx, case, label, obs_z1, obs_z2, Z1, Z2, cond, key=None):
     """obs_*: python complex; Z*: mpc; cond: float."""
     m = mp()
@@ -187,7 +211,9 @@ def compare(ctx, case, label, obs_z1, obs_z2, Z1, Z2, cond, key=None):
         ctx.reject('differs_from_holomorphic_extension', observed=[obs_z1, obs_z2],
                    expected=[complex(Z1), complex(Z2)],
                    detail=dict(err_z1=e1, err_z2=e2, bound=bound, norm=norm, cond=cond, label=label),
-                   function=label, base_point=case.get('x'))
+                   function=label, base_point=case.get('x'),
+                   result_is_nan=bool(np.isnan(obs_z1) or np.isnan(obs_z2)),
+                   quotient_overflow=bool(case.get('_qo')))
         return False
     return True
 
@@ -242,10 +268,14 @@ def run_case(case, ctx):
         r1, r2 = np.atleast_1d(res.z1), np.atleast_1d(res.z2)
         for k, (x, h) in enumerate(zip(xs, hs)):
             a, b = idem(x, h)
+            case['_qo'] = quotient_overflow(('fn', f, ('x',)), x)
+            if not X.neighbourhood_ok(('fn', f, ('x',)), x, complex(a), complex(b)):
+                ctx.count('skipped_outside_neighbourhood_of_real_domain')
+                continue
             Z1, Z2 = from_idem(g(a), g(b))
             cond = numcond(g, [a]) + numcond(g, [b])
-            if f == 'log1p':
-                cond += 1.0     # log1p is judged as log(1 + z): the rounding of 1 + z (absolute eps) is accepted
+            if f in LOG_FORMULA:
+                cond += 1.0     # judged as log(1 + ...): the rounding of forming 1 + ... (absolute eps) is accepted
             ok = compare(ctx, case, f, complex(r1[k]), complex(r2[k]), Z1, Z2, cond)
             ctx.count('asserted:unary')
             if not ok:
@@ -267,6 +297,11 @@ def run_case(case, ctx):
             v = bic(x2, h2)
             a2, b2 = idem(x2, h2)
         a1, b1 = idem(x1, h1)
+        div_arg = (x1, a1, b1) if op == 'rdiv' else (x2, a2, b2)
+        if op in ('div', 'rdiv') and max(abs(complex(div_arg[1]) - div_arg[0]),
+                                         abs(complex(div_arg[2]) - div_arg[0])) > 0.5 * abs(div_arg[0]):
+            ctx.count('skipped_outside_neighbourhood_of_real_domain')
+            return
         try:
             with np.errstate(all='ignore'):
                 res = dict(add=lambda: u + v, sub=lambda: u - v, mul=lambda: u * v, div=lambda: u / v,
@@ -299,6 +334,9 @@ def run_case(case, ctx):
             ctx.reject('raised', observed=repr(exc), function='pow:' + pk)
             return
         a, b = idem(x, h)
+        if pk != 'rpow' and max(abs(complex(a) - x), abs(complex(b) - x)) > 0.5 * abs(x):
+            ctx.count('skipped_outside_neighbourhood_of_real_domain')
+            return
         if pk == 'rpow':
             fn = lambda p: m.power(m.mpf(e), p)
             Z1, Z2 = from_idem(fn(a), fn(b))
@@ -330,6 +368,10 @@ def run_case(case, ctx):
         if not sc.ok or sc.maxabs > 1e6:
             ctx.count('skipped_composition_outside_domain')
             return
+        if not X.neighbourhood_ok(tree, x, complex(a), complex(b)):
+            ctx.count('skipped_outside_neighbourhood_of_real_domain')
+            return
+        case['_qo'] = quotient_overflow(tree, x)
         g = lambda p: X.eval_mp(tree, p, m)
         try:
             fa, fb = g(a), g(b)
@@ -337,35 +379,45 @@ def run_case(case, ctx):
         except Exception:
             ctx.count('skipped_composition_outside_domain')
             return
-        # inner nodes may be ill conditioned although the result is not: charge every node
+        # rounding committed at an inner node propagates to the result with that node's own sensitivity:
+        # measured by perturbing each node's value (relative 1e-18) and re-evaluating the rest of the tree
         inner = 0.0
-        for node in X.nodes(tree):
-            if node[0] in ('x', 'c'):
-                continue
-            try:
-                gn = lambda p, node=node: X.eval_mp(node, p, m)
-                inner = max(inner, numcond(gn, [a]) + float(abs(gn(a))))
-            except Exception:
-                pass
+        dlt = m.mpf(EPS)      # finite perturbation of the size of one rounding: also right for nonlinear
+        nlist = list(X.nodes(tree))   # cancellation such as log(x/x)**5
+        try:
+            for idx, node in enumerate(nlist):
+                if node[0] in ('x', 'c'):
+                    continue
+                floor = 1.0 if (node[0] == 'fn' and node[1] in LOG_FORMULA) else 0.0
+                for p_, f0 in ((a, fa), (b, fb)):
+                    fp = X.eval_mp_perturbed(tree, p_, m, idx, 1 + dlt)
+                    fm = X.eval_mp_perturbed(tree, p_, m, idx, 1 - dlt)
+                    sens = float(max(abs(fp - f0), abs(fm - f0)) / dlt)      # ~ |dF/dnode| * |node|
+                    if floor:
+                        nv = abs(X.eval_mp(node, p_, m))
+                        sens += float(abs(fp - f0) / dlt / nv) * floor if nv > 0 else 0.0
+                    inner += sens
+        except Exception:
+            ctx.count('skipped_composition_outside_domain')
+            return
         try:
             with np.errstate(all='ignore'):
                 res = wrap(X.compile_np(tree)(bic(x, h)))
         except Exception as exc:
             ctx.reject('raised', observed=repr(exc)[:300], function='compose', detail=dict(tree=X.to_str(tree)))
             return
-        # sensitivity of the result to inner-node rounding: |d result / d node| <= cond-like factor;
-        # use the cheap upper bound (1 + cond/|F|) * inner
         Z1, Z2 = from_idem(fa, fb)
-        normF = float(abs(Z1) + abs(Z2))
-        amp = (1.0 + cond / normF) if normF > 0 else 1.0
         ctx.count('asserted:compose')
-        if compare(ctx, case, 'compose', complex(res.z1), complex(res.z2), Z1, Z2, cond + amp * inner):
+        if compare(ctx, case, 'compose', complex(res.z1), complex(res.z2), Z1, Z2, cond + inner):
             ctx.nontrivial(_nontrivial_key('compose:' + X.to_str(tree), h))
             if len(ctx.samples) < 5:
                 ctx.sample(dict(program=X.to_str(tree), x=x, h=h, observed=[complex(res.z1), complex(res.z2)]))
 
 
 def classify(wit):
+    f = wit.get('facts') or {}
+    if wit.get('check') == 'differs_from_holomorphic_extension' and f.get('result_is_nan') and f.get('quotient_overflow'):
+        return 'bicomplex-quotient-overflow'
     return None
 
 
